@@ -154,7 +154,7 @@ def q(s):
 
 
 def tlc(module, cfg, name, workers=None, timeout=900, simulate=None, depth_first=False, env_extra=None,
-        heap="6g", coverage=False, replay_limit=None, sim_depth=100):
+        heap="6g", coverage=False, replay_limit=None, sim_depth=100, sim_seed=None):
     """Run TLC on spec/<module>.tla with the given cfg text. REPLAY lines printed by the spec are
     collected into an ndjson file. Raises ToolError on timeout or TLC crash (never a verdict)."""
     wd = os.path.join(BUILD, "tlc", name)
@@ -173,7 +173,7 @@ def tlc(module, cfg, name, workers=None, timeout=900, simulate=None, depth_first
     if coverage:
         cmd += ["-coverage", "1"]
     if simulate:
-        cmd += ["-simulate", simulate, "-depth", str(sim_depth), "-seed", str(seed())]
+        cmd += ["-simulate", simulate, "-depth", str(sim_depth), "-seed", str(sim_seed if sim_seed is not None else seed())]
     cmd.append(os.path.join(SPEC, module + ".tla"))
     env = dict(os.environ)
     env.pop("JAVA_TOOL_OPTIONS", None)
